@@ -326,6 +326,14 @@ field_cfg!(D43, H43, 4, "1447401115466452442794637312608598848165874808320507050
 field_cfg!(D44, H44, 4, "7237005577332262213973186563042994240829374041602535252466099000494570602367", [0xffffffffffffff7f, 0xffffffffffffffff, 0xffffffffffffffff, 0x0fffffffffffffff]);
 // 45: top190 (190 bits)
 field_cfg!(D45, H45, 3, "1569275433846670190958947355801916604025588861116008628213", [0xfffffffffffffff5, 0xffffffffffffffff, 0x3fffffffffffffff]);
+// 46: z191 (191 bits)
+field_cfg!(D46, H46, 3, "3138550867693340381577612344682894744587803114800249045299", [0x0000000000000133, 0x0000000000000000, 0x7fffffffffffffff]);
+// 47: z254 (254 bits)
+field_cfg!(D47, H47, 4, "14474011154664524434223474861472669245494537506412736921034553445453175718117", [0x00000000000000e5, 0x0000000000000000, 0x0000000000000000, 0x2000000000000001]);
+// 48: z255 (255 bits)
+field_cfg!(D48, H48, 4, "57896044618658097705508390768957273162799202909612615603626436559492530307207", [0x0000000000000087, 0x0000000000000000, 0x0000000000000000, 0x7fffffffffffffff]);
+// 49: p124 (124 bits)
+field_cfg!(D49, H49, 2, "21267647932558653948014168890775961601", [0x0000000000000001, 0x0fffffffffffffff]);
 
 fn dispatch(id: u64, flavour: u64, op: &str, a: &[Arg]) -> Vec<Arg> {
     match (id, flavour) {
@@ -421,6 +429,14 @@ fn dispatch(id: u64, flavour: u64, op: &str, a: &[Arg]) -> Vec<Arg> {
         (44, 1) => run_f::<H44, 4>(op, a),
         (45, 0) => run_f::<D45, 3>(op, a),
         (45, 1) => run_f::<H45, 3>(op, a),
+        (46, 0) => run_f::<D46, 3>(op, a),
+        (46, 1) => run_f::<H46, 3>(op, a),
+        (47, 0) => run_f::<D47, 4>(op, a),
+        (47, 1) => run_f::<H47, 4>(op, a),
+        (48, 0) => run_f::<D48, 4>(op, a),
+        (48, 1) => run_f::<H48, 4>(op, a),
+        (49, 0) => run_f::<D49, 2>(op, a),
+        (49, 1) => run_f::<H49, 2>(op, a),
         _ => panic!("harness: unknown (config, flavour)"),
     }
 }
